@@ -816,6 +816,9 @@ func findSegmentData(segs []*MediaSegment, refTrak *TrakBox, trex *TrexBox) ([]s
 		dur := uint32(0)
 		var baseTime uint64
 		for fIdx, frag := range seg.Fragments {
+			if frag.Moof == nil { // fragment opened by an emsg box that no moof followed
+				return nil, fmt.Errorf("fragment without moof box")
+			}
 			for _, traf := range frag.Moof.Trafs {
 				tfhd := traf.Tfhd
 				if tfhd.TrackID == refTrak.Tkhd.TrackID { // Find track that gives sidx time values
